@@ -23,12 +23,23 @@ Definition it_yield_reset (w : which) : string :=
 Definition it_pop (w : which) : string := match w with WScans => it_scans_pop | WCompscans => it_compscans_pop end.
 Definition it_final_reset (w : which) : string :=
   match w with WScans => it_scans_final_reset | WCompscans => it_compscans_final_reset end.
-(* self.scan_indices / self.compscan_indices: which per-dump index sensor the copied list comes from *)
-Definition it_field (w : which) : dump -> Z :=
-  match w with
-  | WScans => if String.eqb it_scans_field "scan_indices" then d_scan else d_cscan
-  | WCompscans => if String.eqb it_compscans_field "compscan_indices" then d_cscan else d_scan
+(* self.scan_indices / self.compscan_indices / self.target_indices: which per-dump index sensor the list comes from.
+   The attribute -> sensor table is read from the last statements of select() (sel_indices_attrs, each
+   `self.<attr> = sorted(set(self.sensor[<sensor>]))`); the sensor -> field map is the reading of the observation. *)
+Definition sensor_field (sensor : string) : dump -> Z :=
+  if String.eqb sensor "Observation/scan_index" then d_scan
+  else if String.eqb sensor "Observation/compscan_index" then d_cscan
+  else if String.eqb sensor "Observation/target_index" then d_target
+  else fun _ => -1.
+Definition attr_field (attr : string) : dump -> Z :=
+  match find (fun p => String.eqb (fst p) attr) sel_indices_attrs with
+  | Some p => sensor_field (snd p)
+  | None => fun _ => -1
   end.
+Definition it_field (w : which) : dump -> Z :=
+  match w with WScans => attr_field it_scans_field | WCompscans => attr_field it_compscans_field end.
+(* self.target_indices (the attribute name is fixed by the shape test of the translator item) *)
+Definition it_tfield : dump -> Z := attr_field "target_indices".
 
 Definition cdz := @Categorical.cd Z.
 Definition zd : Z := -1.
@@ -78,7 +89,7 @@ Fixpoint it_loop {B} (O : sobs) (w : which) (old : list bool) (body : st -> res 
       match select (so O) s (yield_kw w v) with
       | Err e => Err e
       | Ok s1 =>
-          match name_of O w v, indices_of d_target (so O) (tk s1) with
+          match name_of O w v, indices_of it_tfield (so O) (tk s1) with
           | Some nm, t :: _ =>
               match body s1 with
               | Err e => Err e
@@ -136,6 +147,52 @@ Definition spec_iter (o : obs) (w : which) (m : list bool) : list sitem_spec :=
                    sp_targets := sort_uniq (map d_target ds); sp_mask := mi |})
       (indices_of (specfield w) o m).
 
+(* ---------------------------------------------------------------- PART 1b: abandoned iteration, selecting bodies *)
+(* The consumer leaves the loop (break, return, exception, generator closed or garbage collected) while item
+   number n (0-based) is current: the generator has no try/finally, so NOTHING after that yield runs - neither
+   _set_keep(old_timekeep) nor _selection.pop(key) nor the final re-select of the saved criteria.  The first n items were
+   complete iterations.  If the selection has n items or fewer, the loop ends normally. *)
+Record abandoned := { ab_index : Z; ab_name : Z; ab_target : Z; ab_st : st }.
+Definition iterate_break {B} (O : sobs) (w : which) (body : st -> res (B * st)) (n : nat) (s : st)
+  : res (list (yielded B) * option abandoned * st) :=
+  let l := indices_of (it_field w) (so O) (tk s) in
+  match nth_error l n with
+  | None => match iterate O w body s with Ok (ys, sf) => Ok (ys, None, sf) | Err e => Err e end
+  | Some v =>
+      match it_loop O w (tk s) body (firstn n l) s with
+      | Err e => Err e
+      | Ok (ys, s') =>
+          match select (so O) s' (yield_kw w v) with
+          | Err e => Err e
+          | Ok s1 =>
+              match name_of O w v, indices_of it_tfield (so O) (tk s1) with
+              | Some nm, t :: _ => Ok (ys, Some {| ab_index := v; ab_name := nm; ab_target := t; ab_st := s1 |}, s1)
+              | _, _ => Err EFail
+              end
+          end
+      end
+  end.
+
+(* nested use where the INNER loop is abandoned while its item number n is current, at every outer item:
+     for ... in d.compscans():
+         for ... in d.scans(): ...; break
+   The inner generator leaves its <key> = item in _selection (nothing after its yield runs); the outer generator then
+   restores the time mask and pops ITS key only. *)
+Definition inner_break (O : sobs) (inner : which) (n : nat) (s1 : st)
+  : res ((list (yielded unit) * option abandoned) * st) :=
+  match iterate_break O inner no_body n s1 with Ok (ys, ab, sf) => Ok ((ys, ab), sf) | Err e => Err e end.
+Definition iterate_nested_break (O : sobs) (outer inner : which) (n : nat) (s : st) :=
+  iterate O outer (inner_break O inner n) s.
+
+(* a loop body that itself calls select() (any number of calls); result of the body = the state it leaves *)
+Fixpoint run_calls (o : obs) (s : st) (calls : list kwargs) : res st :=
+  match calls with
+  | [] => Ok s
+  | c :: rest => match select o s c with Ok s' => run_calls o s' rest | Err e => Err e end
+  end.
+Definition body_calls (O : sobs) (calls : list kwargs) (s1 : st) : res (st * st) :=
+  match run_calls (so O) s1 calls with Ok s2 => Ok (s2, s2) | Err e => Err e end.
+
 (* ================================================================================================ *)
 (* PART 2: segmentation of an observation (format classes)                                            *)
 Open Scope nat_scope.
@@ -147,16 +204,43 @@ Definition value_at (c : cdz) (p : nat) : option Z :=
   match Categorical.lookup c p with Some i => Some (nth i (Categorical.uv c) zd) | None => None end.
 Definition opt_is (o : option Z) (v : Z) : bool := match o with Some x => Z.eqb x v | None => false end.
 
-(* ids of the four strings the pipelines test for *)
-Record params := { p_slew : Z; p_stop : Z; p_empty : Z; p_nothing : Z }.
+(* ids of the strings the pipelines test for: 'slew', 'stop', '' (removed from the labels), 'Nothing, special',
+   '' (the label added on dump 0) *)
+Record params := { p_slew : Z; p_stop : Z; p_empty : Z; p_nothing : Z; p_addlabel : Z }.
+
+Inductive fmt := V4 | V3 | V2.
+
+(* the numbers in the decisions of the pipelines, read from the source of each format class by the translator item
+   item_segmentation (Gen/Generated.v, names seg_FMT_...); the comparison operators and the statement order are fixed by
+   the shape test of that item *)
+Record segk := { k_slew_len : nat; k_slew_evi : nat; k_slew_ev : nat; k_slew_dump : nat;
+                 k_lab_uv : nat; k_lab_first : nat; k_lab_add : nat;
+                 k_noth_len : nat; k_noth_dump : nat; k_stop_dump : nat; k_dist : nat }.
+Definition segk_of (f : fmt) : segk :=
+  let n := Z.to_nat in
+  match f with
+  | V4 => {| k_slew_len := n seg_v4_slew_len_gt; k_slew_evi := n seg_v4_slew_event_index; k_slew_ev := n seg_v4_slew_event_value;
+             k_slew_dump := n seg_v4_slew_dump; k_lab_uv := n seg_v4_label_uv_gt; k_lab_first := n seg_v4_label_first_gt;
+             k_lab_add := n seg_v4_label_add_event; k_noth_len := n seg_v4_nothing_len_gt; k_noth_dump := n seg_v4_nothing_dump;
+             k_stop_dump := n seg_v4_stop_dump; k_dist := n cat_match_dist_default |}
+  | V3 => {| k_slew_len := n seg_v3_slew_len_gt; k_slew_evi := n seg_v3_slew_event_index; k_slew_ev := n seg_v3_slew_event_value;
+             k_slew_dump := n seg_v3_slew_dump; k_lab_uv := n seg_v3_label_uv_gt; k_lab_first := n seg_v3_label_first_gt;
+             k_lab_add := n seg_v3_label_add_event; k_noth_len := n seg_v3_nothing_len_gt; k_noth_dump := n seg_v3_nothing_dump;
+             k_stop_dump := n seg_v3_stop_dump; k_dist := n cat_match_dist_default |}
+  | V2 => {| k_slew_len := n seg_v2_slew_len_gt; k_slew_evi := n seg_v2_slew_event_index; k_slew_ev := n seg_v2_slew_event_value;
+             k_slew_dump := n seg_v2_slew_dump; k_lab_uv := n seg_v2_label_uv_gt; k_lab_first := n seg_v2_label_first_gt;
+             k_lab_add := n seg_v2_label_add_event; k_noth_len := n seg_v2_nothing_len_gt; k_noth_dump := n seg_v2_nothing_dump;
+             k_stop_dump := n seg_v2_stop_dump; k_dist := n cat_match_dist_default |}
+  end.
 
 (* if len(scan) > 1 and scan.events[1] == 1 and scan[1] == 'slew': drop the first event *)
-Definition slew_fix (P : params) (scan : cdz) : cdz :=
-  if (1 <? List.length (Categorical.idx scan)) && (nth 1 (Categorical.ev scan) 0 =? 1) && opt_is (value_at scan 1) (p_slew P)
+Definition slew_fix (K : segk) (P : params) (scan : cdz) : cdz :=
+  if (k_slew_len K <? List.length (Categorical.idx scan)) && (nth (k_slew_evi K) (Categorical.ev scan) 0 =? k_slew_ev K)
+     && opt_is (value_at scan (k_slew_dump K)) (p_slew P)
   then drop_first scan else scan.
 (* if len(label.unique_values) > 1: label.remove('') *)
-Definition label_clean (P : params) (label : cdz) : cdz :=
-  if 1 <? List.length (Categorical.uv label) then Categorical.remove Z.eqb label (p_empty P) else label.
+Definition label_clean (K : segk) (P : params) (label : cdz) : cdz :=
+  if k_lab_uv K <? List.length (Categorical.uv label) then Categorical.remove Z.eqb label (p_empty P) else label.
 (* CategoricalData(list(range(len(x))), x.events) *)
 Definition index_cd (c : cdz) : cdz := Categorical.make Z.eqb (map Z.of_nat (seq 0 (List.length (Categorical.idx c)))) (Categorical.ev c).
 (* CategoricalData(target.indices, target.events) *)
@@ -164,18 +248,16 @@ Definition tindex_cd (c : cdz) : cdz := Categorical.make Z.eqb (map Z.of_nat (Ca
 
 (* v4: the loop that removes an initial target left over while the antennas are stopped;
    result: should the first target event be dropped?  (`is` on unique values = equality of their indices) *)
-Fixpoint stop_scan (P : params) (t : cdz) (segs : list (nat * nat * Z)) : option bool :=
+Fixpoint stop_scan (K : segk) (P : params) (t : cdz) (segs : list (nat * nat * Z)) : option bool :=
   match segs with
   | [] => Some false
   | (s, _, state) :: rest =>
-      match Categorical.lookup t s, Categorical.lookup t 0 with
+      match Categorical.lookup t s, Categorical.lookup t (k_stop_dump K) with
       | Some a, Some b =>
-          if Z.eqb state (p_stop P) && (a =? b) then stop_scan P t rest else Some (negb (a =? b))
+          if Z.eqb state (p_stop P) && (a =? b) then stop_scan K P t rest else Some (negb (a =? b))
       | _, _ => None
       end
   end.
-
-Inductive fmt := V4 | V3 | V2.
 
 Record seg := { sg_state : cdz; sg_scan : cdz; sg_label : cdz; sg_cscan : cdz; sg_target : cdz; sg_tindex : cdz }.
 
@@ -185,7 +267,7 @@ Definition target_post (f : fmt) (P : params) (scan t : cdz) : option cdz :=
       match Categorical.remove_repeats t with
       | None => None
       | Some t1 =>
-          match stop_scan P t1 (Categorical.segments zd scan) with
+          match stop_scan (segk_of f) P t1 (Categorical.segments zd scan) with
           | None => None
           | Some true => let t2 := drop_first t1 in Categorical.align zd t2 (Categorical.ev t2)
           | Some false => Some t1
@@ -196,18 +278,22 @@ Definition target_post (f : fmt) (P : params) (scan t : cdz) : option cdz :=
 
 (* act / label / target: the categorical sensors as extracted by sensor_to_categorical (C10) *)
 Definition segment (f : fmt) (P : params) (act label target : cdz) : option seg :=
-  let scan0 := slew_fix P act in
-  let label1 := label_clean P label in
-  let scan := Categorical.add_unmatched Z.eqb scan0 (Categorical.ev label1) 1 in
+  let K := segk_of f in
+  let scan0 := slew_fix K P act in
+  let label1 := label_clean K P label in
+  (* scan.add_unmatched(label.events): match_dist is the default of categorical.py (C11's translated constant) *)
+  let scan := Categorical.add_unmatched Z.eqb scan0 (Categorical.ev label1) (k_dist K) in
   match Categorical.align zd label1 (Categorical.ev scan) with
   | None => None
   | Some label2 =>
-      match (if 0 <? hd 0 (Categorical.ev label2) then Categorical.add Z.eqb label2 0 (Some (p_empty P)) else Some label2) with
+      match (if k_lab_first K <? hd 0 (Categorical.ev label2) then Categorical.add Z.eqb label2 (k_lab_add K) (Some (p_addlabel P))
+             else Some label2) with
       | None => None
       | Some label3 =>
           (* v3, RTS workaround: if len(target) > 1 and target[0] == 'Nothing, special' *)
           let target1 := match f with
-                         | V3 => if (1 <? List.length (Categorical.idx target)) && opt_is (value_at target 0) (p_nothing P)
+                         | V3 => if (k_noth_len K <? List.length (Categorical.idx target))
+                                    && opt_is (value_at target (k_noth_dump K)) (p_nothing P)
                                  then drop_first target else target
                          | _ => target
                          end in
@@ -331,8 +417,9 @@ Definition wire_3 (x : sx) : sx :=
 
 Definition to_params (x : sx) : params :=
   match to_Zs x with
-  | [a; b; c; d] => {| p_slew := a; p_stop := b; p_empty := c; p_nothing := d |}
-  | _ => {| p_slew := -2; p_stop := -2; p_empty := -2; p_nothing := -2 |}
+  | [a; b; c; d] => {| p_slew := a; p_stop := b; p_empty := c; p_nothing := d; p_addlabel := c |}
+  | [a; b; c; d; e] => {| p_slew := a; p_stop := b; p_empty := c; p_nothing := d; p_addlabel := e |}
+  | _ => {| p_slew := -2; p_stop := -2; p_empty := -2; p_nothing := -2; p_addlabel := -2 |}
   end.
 Definition to_series (x : sx) : cdz :=
   match x with L [vs; es] => Categorical.make Z.eqb (to_Zs vs) (to_nats es) | _ => Categorical.mk [] [] [] end.
@@ -357,5 +444,48 @@ Definition wire_32 (x : sx) : sx :=
   match x with
   | L [n; st; gr; lb; tg; sg] =>
       of_seg (to_nat n) (segment_v1 (to_Zs st) (to_Zs gr) (to_Zs lb) (to_Zs tg) (to_nats sg))
+  | _ => sx_err
+  end.
+
+(* (obs state_cd label_cd calls which body_calls break_at) -> (statuses state_before model spec)
+   the generator `which` with a loop body that issues the select() calls `body_calls` at every yield; break_at < 0:
+   run to exhaustion, else the consumer leaves the loop while item number break_at is current *)
+Definition of_abandoned (a : option abandoned) : sx :=
+  match a with
+  | Some a => L [I (ab_index a); I (ab_name a); I (ab_target a); of_state (ab_st a)]
+  | None => L []
+  end.
+Definition wire_34 (x : sx) : sx :=
+  match x with
+  | L [ob; stc; lbc; calls; I wo; bcalls; I brk] =>
+      let o := to_obs ob in
+      let O := {| so := o; so_state := to_cd stc; so_label := to_cd lbc |} in
+      let '(statuses, s0) := run_prior o (init o) (map to_kwargs (to_list calls)) in
+      let w := which_of wo in
+      let body := body_calls O (map to_kwargs (to_list bcalls)) in
+      let model :=
+        if brk <? 0 then of_run of_state (iterate O w body s0)
+        else match iterate_break O w body (Z.to_nat brk) s0 with
+             | Ok (ys, ab, sf) => L [I 0; L (map (of_yield of_state) ys); of_abandoned ab; of_state sf]
+             | Err ETypeError => L [I 1]
+             | Err EFail => L [I 2]
+             end in
+      let spec := L (map (of_spec_item (fun _ => L [])) (spec_iter o w (tk s0))) in
+      L [of_Zs statuses; of_state s0; model; spec]
+  | _ => sx_err
+  end.
+
+(* (obs state_cd label_cd calls outer inner break_at) -> (statuses state_before model): `inner` nested inside `outer`, the
+   inner loop left while its item number break_at is current (at every outer item) *)
+Definition wire_35 (x : sx) : sx :=
+  match x with
+  | L [ob; stc; lbc; calls; I wo; I wi; I brk] =>
+      let o := to_obs ob in
+      let O := {| so := o; so_state := to_cd stc; so_label := to_cd lbc |} in
+      let '(statuses, s0) := run_prior o (init o) (map to_kwargs (to_list calls)) in
+      let model := of_run (fun b : list (yielded unit) * option abandoned =>
+                             L [L (map (of_yield (fun _ => L [])) (fst b)); of_abandoned (snd b)])
+                          (iterate_nested_break O (which_of wo) (which_of wi) (Z.to_nat brk) s0) in
+      L [of_Zs statuses; of_state s0; model]
   | _ => sx_err
   end.
